@@ -96,7 +96,7 @@ namespace cds { namespace urcu {
         //@cond
         signal_buffered( size_t nBufferCapacity, int nSignal = SIGUSR1 )
             : base_class( nSignal )
-            , m_Buffer( nBufferCapacity )
+            , m_Buffer( nBufferCapacity > 1 ? nBufferCapacity : 2 )   // the buffer (Vyukov queue) needs at least 2 cells
             , m_nCurEpoch(0)
             , m_nCapacity( nBufferCapacity )
         {}
